@@ -285,3 +285,44 @@ package pubsub
 //@   ensures penalties-kept: forall o *topicStats :: lin(allocated(o)) ==> o.meshFailurePenalty >= lin(o.meshFailurePenalty) && o.invalidMessageDeliveries == lin(o.invalidMessageDeliveries)
 //@   ensures others-kept: forall q string :: q != p ==> (q in ps.peerStats) == lin(q in ps.peerStats) && ps.peerStats[q] == lin(ps.peerStats[q])
 //@   ensures released: !held(ps.Mutex)
+
+// refreshScores (retention, C13): statistics of a disconnected peer are dropped exactly when its
+// retention period has expired (now > expire); until then the retained counters are not decayed;
+// nobody else is dropped and nobody is added. (The decay arithmetic of connected peers is not
+// specified here.)
+//@ func (*peerScore).refreshScores
+//@   property C10 C13
+//@   modifies monitor(peerScore.Mutex), clock, scoreEpoch
+//@   loop 1 invariant held: held(ps.Mutex) && scoreSep(ps) && now == lin(now) && now == lastret(time.Now) && ps.params == lin(ps.params)
+//@   loop 1 invariant kept: forall q string :: (q in ps.peerStats ==> lin(q in ps.peerStats) && ps.peerStats[q] == lin(ps.peerStats[q])) &&
+//@        (lin(q in ps.peerStats) && !(q in ps.peerStats) ==> $visited[q] && !lin(ps.peerStats[q].connected) && now > lin(ps.peerStats[q].expire))
+//@   loop 1 invariant expired-dropped: forall q string :: $visited[q] && lin(q in ps.peerStats) && !lin(ps.peerStats[q].connected) && now > lin(ps.peerStats[q].expire) ==> !(q in ps.peerStats)
+//@   loop 1 invariant status-kept: forall o *peerStats :: lin(allocated(o)) ==> o.connected == lin(o.connected) && o.expire == lin(o.expire) && o.topics == lin(o.topics)
+//@   loop 1 invariant tables-kept: forall q string, t string :: lin(q in ps.peerStats) ==> (t in lin(ps.peerStats[q]).topics) == lin(t in ps.peerStats[q].topics) &&
+//@        lin(ps.peerStats[q]).topics[t] == lin(ps.peerStats[q].topics[t])
+//@   loop 1 invariant retained-frozen: forall q string, t string :: lin(q in ps.peerStats) && !lin(ps.peerStats[q].connected) && lin(t in ps.peerStats[q].topics) ==>
+//@        lin(ps.peerStats[q].topics[t]).firstMessageDeliveries == lin(ps.peerStats[q].topics[t].firstMessageDeliveries) &&
+//@        lin(ps.peerStats[q].topics[t]).meshFailurePenalty == lin(ps.peerStats[q].topics[t].meshFailurePenalty) &&
+//@        lin(ps.peerStats[q].topics[t]).invalidMessageDeliveries == lin(ps.peerStats[q].topics[t].invalidMessageDeliveries) &&
+//@        lin(ps.peerStats[q]).behaviourPenalty == lin(ps.peerStats[q].behaviourPenalty)
+//@   loop 2 invariant held: held(ps.Mutex) && scoreSep(ps) && now == lin(now) && now == lastret(time.Now) && ps.params == lin(ps.params)
+//@   loop 2 invariant status-kept: forall o *peerStats :: lin(allocated(o)) ==> o.connected == lin(o.connected) && o.expire == lin(o.expire) && o.topics == lin(o.topics)
+//@   loop 2 invariant tables-kept: forall q string, t string :: lin(q in ps.peerStats) ==> (t in lin(ps.peerStats[q]).topics) == lin(t in ps.peerStats[q].topics) &&
+//@        lin(ps.peerStats[q]).topics[t] == lin(ps.peerStats[q].topics[t])
+//@   loop 2 invariant retained-frozen: forall q string, t string :: lin(q in ps.peerStats) && !lin(ps.peerStats[q].connected) && lin(t in ps.peerStats[q].topics) ==>
+//@        lin(ps.peerStats[q].topics[t]).firstMessageDeliveries == lin(ps.peerStats[q].topics[t].firstMessageDeliveries) &&
+//@        lin(ps.peerStats[q].topics[t]).meshFailurePenalty == lin(ps.peerStats[q].topics[t].meshFailurePenalty) &&
+//@        lin(ps.peerStats[q].topics[t]).invalidMessageDeliveries == lin(ps.peerStats[q].topics[t].invalidMessageDeliveries) &&
+//@        lin(ps.peerStats[q]).behaviourPenalty == lin(ps.peerStats[q].behaviourPenalty)
+//@   loop 2 invariant current: p in ps.peerStats && ps.peerStats[p] == pstats && lin(p in ps.peerStats) && pstats == lin(ps.peerStats[p]) && lin(ps.peerStats[p].connected) && $visited#1[p]
+//@   loop 2 invariant kept: forall q string :: (q in ps.peerStats ==> lin(q in ps.peerStats) && ps.peerStats[q] == lin(ps.peerStats[q])) &&
+//@        (lin(q in ps.peerStats) && !(q in ps.peerStats) ==> $visited#1[q] && !lin(ps.peerStats[q].connected) && now > lin(ps.peerStats[q].expire))
+//@   loop 2 invariant expired-dropped: forall q string :: $visited#1[q] && lin(q in ps.peerStats) && !lin(ps.peerStats[q].connected) && now > lin(ps.peerStats[q].expire) ==> !(q in ps.peerStats)
+//@   ensures expired-dropped: forall q string :: lin(q in ps.peerStats) && !lin(ps.peerStats[q].connected) && now > lin(ps.peerStats[q].expire) ==> !(q in ps.peerStats)
+//@   ensures others-kept: forall q string :: lin(q in ps.peerStats) && !(!lin(ps.peerStats[q].connected) && now > lin(ps.peerStats[q].expire)) ==> q in ps.peerStats && ps.peerStats[q] == lin(ps.peerStats[q])
+//@   ensures none-added: forall q string :: q in ps.peerStats ==> lin(q in ps.peerStats)
+//@   ensures retained-not-decayed: forall q string, t string :: lin(q in ps.peerStats) && !lin(ps.peerStats[q].connected) && lin(t in ps.peerStats[q].topics) ==>
+//@        lin(ps.peerStats[q].topics[t]).meshFailurePenalty == lin(ps.peerStats[q].topics[t].meshFailurePenalty) &&
+//@        lin(ps.peerStats[q].topics[t]).invalidMessageDeliveries == lin(ps.peerStats[q].topics[t].invalidMessageDeliveries) &&
+//@        lin(ps.peerStats[q]).behaviourPenalty == lin(ps.peerStats[q].behaviourPenalty)
+//@   ensures released: !held(ps.Mutex)
